@@ -5,6 +5,7 @@
 From Coq Require Import List NArith Bool.
 From HV Require Import XmlNs.XTreeModel XmlNs.XSerModel XmlNs.XSerSpec XmlNs.XSerProofs.
 Import ListNotations.
+Local Open Scope N_scope.
 
 (* C17_decl_adequate outside the finding classes: in the serializer's output
    every prefix used by an element or attribute name is bound to the name's
@@ -31,7 +32,7 @@ Print Assumptions C17_decl_adequate_refuted.
    string without CR and U+0000 ... *)
 Theorem C17_escape_reversible_text :
   forall s rest, no_cr_nul s = true ->
-  lex_text (S (length (escape false s ++ 60 :: rest))) (escape false s ++ 60 :: rest) = Some (s, 60 :: rest)%N.
+  lex_text (S (length (escape false s ++ 60 :: rest))) (escape false s ++ 60 :: rest) = Some (s, 60 :: rest).
 Proof. exact escape_text_reversible. Qed.
 Print Assumptions C17_escape_reversible_text.
 
@@ -43,7 +44,7 @@ Print Assumptions C17_escape_reversible_attr.
 
 (* ... and not for CR (DESIGN 6.3 row 10): "\r" comes back as "\n" *)
 Theorem C17_escape_refuted_cr :
-  lex_text 3 (escape false [13] ++ [60])%N = Some ([10], [60])%N.
+  lex_text 3 (escape false [13] ++ [60]) = Some ([10], [60]).
 Proof. exact escape_text_refuted_cr. Qed.
 Print Assumptions C17_escape_refuted_cr.
 
